@@ -419,3 +419,20 @@ package core
 //@   assigns c.pos, c.mark
 //@   ensures ccmd(c)
 //@   ensures [backward] old(0 <= c.pos && c.pos <= len(*c.line)) ==> c.pos <= old(c.pos)
+
+//@ func (*Selection).Cursor
+//@   props C16 C17 C06 C01
+//@   terminates
+//@   requires svalid(s)
+//@   assigns s.bpos, s.epos, s.cursor.pos, s.cursor.mark
+//@   ensures [at-begin] !(s.visual && s.visualLine) && old(selB(s)) != -1 ==> result == old(selB(s))
+//@   ensures [no-selection] old(selB(s)) == -1 && old(selE(s)) == -1 ==> result == clampi(old(s.cursor.pos), len(*s.line))
+//@   ensures [idempotent] selB(s) == old(selB(s)) && selE(s) == old(selE(s))
+//@   ensures [cursor] old(cok(s.cursor)) ==> s.cursor.pos == old(s.cursor.pos) && s.cursor.mark == old(s.cursor.mark)
+//@   ensures [cursor] s.cursor.pos == old(s.cursor.pos) || s.cursor.pos == clampi(old(s.cursor.pos), len(*s.line))
+//@   loop 1 invariant -1 <= cpos && cpos < len(*s.line) && cpos < pos && 0 <= pos && pos <= len(*s.line) && 0 <= bpos && bpos <= epos && epos <= len(*s.line) && cok(s.cursor)
+//@   loop 1 decreases cpos + 1
+//@   loop 2 invariant -2 <= hpos && hpos < len(*s.line) && 0 <= bpos && bpos <= len(*s.line)
+//@   loop 2 decreases hpos + 2
+//@   loop 3 invariant 0 <= cpos && cpos <= len(*s.line) && 0 <= hpos
+//@   loop 3 decreases len(*s.line) - cpos
